@@ -243,7 +243,7 @@ def run(ctx):
             ctx.histogram["oracle:" + l[5:]] += 1
         elif l.startswith("KNOWN "):
             ctx.histogram["oracle:known-" + l.split(" ")[1]] += 1
-    prio = {"deliver": 0, "name": 1, "build": 2, "tagshape": 3}
+    prio = {"deliver": 0, "name": 1, "build": 2, "tagshape": 3, "tagfresh": 4}
     ofails = sorted((l for l in oracle if l.startswith("FAIL ")), key=lambda l: prio.get(l.split(" ")[1], 9))
     ctx.histogram["oracle:fail"] = len(ofails)
     # --- known finding KF-C18-1: replay of the witnesses (they are the first ops after the self-check)
@@ -272,7 +272,10 @@ def run(ctx):
     for l in ofails[:3]:
         m = re.match(r"FAIL (\S+) (case \S+ \S+ \S+ \S+|name \S+)(.*)", l)
         cls, rop, rest = (m.group(1), m.group(2), m.group(3)) if m else ("?", "", l)
-        aop = _minimise(ctx, go, model, _abstract(rop), "oracle:" + cls) if rop else ""
+        if cls == "tagfresh":   # needs two builds in one process: the single case cannot be minimised alone
+            aop = _abstract(rop)
+        else:
+            aop = _minimise(ctx, go, model, _abstract(rop), "oracle:" + cls) if rop else ""
         seen_ops.add(_abstract(rop))
         concrete = True
         ctx.violation("impl-vs-spec", "clause '%s' of the property fails on the implementation (real builders, real %s): %s"
